@@ -2,16 +2,20 @@ package main
 
 import (
 	"bytes"
+	"context"
 	"fmt"
 	"math/rand"
 	"strconv"
 	"strings"
+	"time"
 
 	"go.brendoncarroll.net/p2p"
 	"go.brendoncarroll.net/p2p/f/x509"
 	"go.brendoncarroll.net/p2p/f/x509/oids"
+	"go.brendoncarroll.net/p2p/s/memswarm"
 	"go.brendoncarroll.net/p2p/s/p2pkeswarm"
 	"go.brendoncarroll.net/p2p/s/quicswarm"
+	"go.brendoncarroll.net/p2p/s/udpswarm"
 	"golang.org/x/crypto/sha3"
 	"verifharness/internal/hx"
 )
@@ -401,6 +405,9 @@ func keyOracle(r *rand.Rand, n int, tier string, infile string) (cases int, fail
 			checkRunTogether(a1, 1+r.Intn(9), genKeyData(r))
 		}
 	}
+	if oracleOffset == 0 {
+		cases += fingerprinterLayersCase(fail)
+	}
 	return cases, fails
 }
 
@@ -414,4 +421,92 @@ func validArcs(xs []int) bool {
 		}
 	}
 	return true
+}
+
+// fingerprinterLayersCase (C17, "identical across every layer that computes it"): swarms configured with a fingerprint
+// function of their own. The identity a node advertises (LocalAddrs), the one it is known by to its peers (Src of what
+// it sends), the one it is addressed by (Dst of what it receives) and the fingerprint of the key LookupPublicKey
+// returns are all that function applied to the node's public key.
+func fingerprinterLayersCase(fail func(string, ...any)) (cases int) {
+	custom := func(k *x509.PublicKey) p2p.PeerID {
+		return p2p.PeerID(sha3.Sum256(append([]byte("verif:"), x509.MarshalPublicKey(nil, k)...)))
+	}
+	// p2pkeswarm over the in-memory transport
+	{
+		cases++
+		realm := memswarm.NewRealm(memswarm.WithQueueLen(16))
+		a := p2pkeswarm.New[memswarm.Addr](realm.NewSwarm(), testPrivKey(501), p2pkeswarm.WithFingerprinter[memswarm.Addr](custom))
+		b := p2pkeswarm.New[memswarm.Addr](realm.NewSwarm(), testPrivKey(502), p2pkeswarm.WithFingerprinter[memswarm.Addr](custom))
+		pubA, pubB := a.PublicKey(), b.PublicKey()
+		idA, idB := custom(&pubA), custom(&pubB)
+		if got := a.LocalAddrs()[0].ID; got != idA {
+			fail("p2pkeswarm with a configured fingerprinter advertises the identity %v, the fingerprint of its key is %v", got, idA)
+		}
+		type seen struct {
+			src, dst, lk p2p.PeerID
+			lkErr        error
+		}
+		ch := make(chan seen, 1)
+		go b.Receive(context.Background(), func(m p2p.Message[p2pkeswarm.Addr[memswarm.Addr]]) {
+			lctx, cf := context.WithTimeout(context.Background(), time.Second)
+			defer cf()
+			var lk p2p.PeerID
+			pk, err := b.LookupPublicKey(lctx, m.Src)
+			if err == nil {
+				lk = custom(&pk)
+			}
+			ch <- seen{m.Src.ID, m.Dst.ID, lk, err}
+		})
+		ctx, cf := context.WithTimeout(context.Background(), 3*time.Second)
+		err := a.Tell(ctx, b.LocalAddrs()[0], p2p.IOVec{[]byte("who am i")})
+		cf()
+		if err != nil {
+			fail("p2pkeswarm with a configured fingerprinter: Tell to the address the peer advertises fails: %v", err)
+		} else {
+			select {
+			case s := <-ch:
+				if s.src != idA || s.dst != idB || s.lkErr != nil || s.lk != idA {
+					fail("p2pkeswarm with a configured fingerprinter: message from %v to %v arrives as from %v to %v; the key looked up for its source has fingerprint %v (err=%v)", idA, idB, s.src, s.dst, s.lk, s.lkErr)
+				}
+			case <-time.After(3 * time.Second):
+				fail("p2pkeswarm with a configured fingerprinter: a message told to the address the peer advertises is not delivered")
+			}
+		}
+		a.Close()
+		b.Close()
+	}
+	// quicswarm over UDP (skipped when the sockets cannot be had)
+	qcustom := func(k x509.PublicKey) p2p.PeerID { return custom(&k) }
+	qa, err1 := quicswarm.NewOnUDP("127.0.0.1:0", testPrivKey(503), quicswarm.WithFingerprinter[udpswarm.Addr](qcustom))
+	qb, err2 := quicswarm.NewOnUDP("127.0.0.1:0", testPrivKey(504), quicswarm.WithFingerprinter[udpswarm.Addr](qcustom))
+	if err1 == nil && err2 == nil {
+		cases++
+		idA, idB := qcustom(qa.PublicKey()), qcustom(qb.PublicKey())
+		if got := qa.LocalAddrs()[0].ID; got != idA {
+			fail("quicswarm with a configured fingerprinter advertises the identity %v, the fingerprint of its key is %v", got, idA)
+		}
+		ch := make(chan [2]p2p.PeerID, 1)
+		go qb.Receive(context.Background(), func(m p2p.Message[quicswarm.Addr[udpswarm.Addr]]) { ch <- [2]p2p.PeerID{m.Src.ID, m.Dst.ID} })
+		ctx, cf := context.WithTimeout(context.Background(), 3*time.Second)
+		err := qa.Tell(ctx, qb.LocalAddrs()[0], p2p.IOVec{[]byte("who am i")})
+		cf()
+		if err == nil {
+			select {
+			case s := <-ch:
+				if s[0] != idA || s[1] != idB {
+					fail("quicswarm with a configured fingerprinter: message from %v to %v arrives as from %v to %v", idA, idB, s[0], s[1])
+				}
+			case <-time.After(3 * time.Second):
+			}
+		} else if !strings.Contains(err.Error(), "deadline") && !strings.Contains(err.Error(), "timeout") {
+			fail("quicswarm with a configured fingerprinter: Tell to the address the peer advertises fails: %v", err)
+		}
+	}
+	if qa != nil {
+		qa.Close()
+	}
+	if qb != nil {
+		qb.Close()
+	}
+	return cases
 }
